@@ -44,6 +44,18 @@ CHECKS["C10"] = dict(technique="Observation log of (grammar, shell, artefact) di
 CHECKS["C14"] = dict(technique="TLC-chosen layouts (LayoutGen.tla) and generator recipes of one abstract grammar; script digests validated by TLC against the memo model keyed by (abstract grammar, shell) (MemoCheck.tla)",
              text="Per grammar and shell, the canonical file and its re-laid-out variants (blanks, tabs, newlines, comments, form feed at every token boundary; `::=`; final `;` dropped; redundant parentheses; permuted and moved definitions) must compile to byte-identical scripts.",
              ref="7/C14", note="Call variants keep their relative order; the version line of the script is not compared.")
+CHECKS["C04"] = dict(technique="Script text read back by per-shell table readers; TLC product exploration recorded minimised automaton x automaton read from the script (Equiv.tla, mode min-script) + ScriptCheck.tla (registration, command bodies, nothing unaccounted for)",
+             text="For every corpus grammar and each of the four emitters, the tables in the script text (literal list, descriptions, match tables, per-level completion tables, within-word functions incl. shared table sets, command function bodies, start state) are read with the shell's index base and double-quote rules, and TLC decides that they denote the same labelled language as the compiled automaton, for the main and every within-word automaton.",
+             ref="7/C04", note="fish/zsh/pwsh are not installed: data is read, program text is not executed; acceptance is not embedded and not compared; C09's region (same literal at two levels) is skipped.")
+CHECKS["C07"] = dict(technique="String constants located in the four scripts are decoded by TLC with Quote.tla's models of each shell's double-quote rules and compared with the grammar's texts (QuoteCheck.tla); bash additionally executed (bash -n, candidates, matching of glob-confusable words) and validated through BashCheck.tla",
+             text="All strings up to a length bound over the character set the grammar syntax admits, as described top-level literals and as values inside a word: every constant in every script is terminated exactly at its end, contains no live expansion and reads back as the original text under the shell's documented rules; in bash the script parses, offers the literals character for character and matches a literal only by the identical word.",
+             ref="7/C07", note="The fish, zsh and PowerShell decoders are a reading of the manuals (no interpreters here); string length <= 3 (4 sampled in thorough).")
+CHECKS["C09"] = dict(technique="TLC character-level product exploration of every pair of outgoing literal / within-word items with different targets at every reachable state of the recorded minimised automaton (Overlap.tla); TLC-generated command lines answered by real bash on G and on G with `|` for `||`, validated by LevelsCheck.tla",
+             text="(a) exact decision on the compiled automaton that no word has two readings leading to different states; (b) for TLC-generated command lines the `||` grammar and its `|` variant match the same lines and the `||` grammar's candidates are a non-empty-preserving subset.",
+             ref="7/C09", note="Commands and any-word items are not paired (their priority is specified elsewhere); the unchanged tree has known findings here (symbol identity includes the fallback level; within-word expressions are identified by structure).")
+CHECKS["C16"] = dict(technique="Both Graphviz files read by a strict DOT reader written from the DOT grammar; TLC compares the graph of --dfa with the recorded minimised automaton and the labels of --regex with the grammar's literals (DotCheck.tla)",
+             text="Both files must be valid DOT; --dfa must show one node per state numbered with the shell's base, start and accepting marking, one labelled solid edge per literal/command/any-word transition whose label contains the literal text, and one cluster per within-word automaton entered and left by dashed edges at the right states; every literal must occur in a --regex node label.",
+             ref="7/C16", note="Graphviz itself is not installed; how descriptions and levels are rendered inside labels is not prescribed.")
 PENDING = {}
 
 def main():
